@@ -52,6 +52,18 @@ REFS = {
 for _k, (_t, _v) in REFS.items():
     CATALOGUE[_k] = CATALOGUE[_t]
 
+# formatter keys written in the DEFAULT locale only (explicitly null elsewhere): rendered for another locale they take the text from
+# the default locale but are formatted for the locale being rendered
+DEFAULTED = {
+    "fd_n3": "number(grouping_strategy: always)",
+    "fd_d2": "date(date_length: full)",
+    "fd_t2": "time(time_length: medium)",
+    "fd_dt2": "datetime(date_length: long; time_length: medium)",
+    "fd_l3": "list(list_type: or)",
+    "fd_c2": "currency(width: narrow; currency_code: EUR)",
+}
+CATALOGUE.update(DEFAULTED)
+
 FMT_LOCALES = ["en", "fr", "de", "ar", "zh-Hant-TW"]
 
 # keys that are also rendered for other VALUES than the fixed one (value universe: spec/FormatterValues.tla)
